@@ -41,7 +41,16 @@ RAGGED = {
     "dtr": ["natoms"],
 }
 
-WHERE = {}
+def _xtc_unflushed_big_write(c):
+    cr = c.get("crash")
+    return bool(c["fmt"] == "xtc" and cr and cr["at"] % 2 == 1 and c["comp"][min((cr["at"] - 1) // 2, len(c["comp"]) - 1)] > 6)
+
+
+WHERE = {
+    # XTC: a writer killed right after a write() of more bytes than stdio buffers (before its flush) leaves a truncated last frame;
+    # md.load then raises instead of returning the complete frames (reader in xtc.pyx: Cython, cannot be rebuilt here)
+    "C19-xtc-truncated-tail-unloadable": lambda c, k: _xtc_unflushed_big_write(c),
+}
 
 
 def _open_keys():
@@ -101,6 +110,9 @@ def strategy(draw, tier="quick"):
                 case["ragged"]["reopen_append"] = True   # the ragged write is the first one after re-opening with mode='a'
     elif mode == "crash" and fmt in LIVE:
         case["crash"] = {"at": draw(st.integers(1, 2 * len(comp))), "how": draw(st.sampled_from(["kill", "_exit"]))}
+        if "C19-xtc-truncated-tail-unloadable" in _open_keys() and _xtc_unflushed_big_write(case):
+            case["crash"]["at"] += 1          # excluded by construction: the kill comes after the flush of that write instead
+            case["excluded"] = ["excluded:C19-xtc-truncated-tail-unloadable"]
         if fmt == "h5" and draw(st.booleans()) and len(comp) > 1:
             case["append_after"] = draw(st.integers(1, len(comp) - 1))
     elif fmt == "h5" and len(comp) > 1 and draw(st.booleans()):
@@ -225,7 +237,7 @@ def _expected(tr, hi, cell, time, fmt):
 def run_case(case):
     fmt, comp, cell, time = case["fmt"], case["comp"], case["cell"], case["time"]
     n = sum(comp)
-    viol, labels = [], ["fmt:" + fmt]
+    viol, labels = [], ["fmt:" + fmt] + list(case.get("excluded", []))
     tr = files.file_traj(n, case["na"], (case.get("cellmode") or "tric") if case.get("tric") else "ortho-vary", case["seed"], time="offset")
     what = ["xyz"] + (["cell"] if cell else []) + (["time"] if (time and files.FORMATS[fmt]["time"]) else [])
     with warnings.catch_warnings(), files.scratch() as d:
